@@ -95,6 +95,8 @@ def run_check(pid: str, tier: str, repo: str, rules: Callable[[Ctx], None], expl
         prog = Prog(repo)
         ctx = Ctx(pid, tier, prog, repo)
         rules(ctx)
+        if getattr(ctx, "deferred_errors", None):  # a property whose clauses are shared lost its anchor: what could be judged was judged first
+            raise AnalysisError("; ".join(ctx.deferred_errors))
         if "sqllineage" in sys.modules or "sqlfluff" in sys.modules or "sqlparse" in sys.modules:
             raise AnalysisError("the analysed package (or its parsers) got imported: verdicts must come from source only")
     except AnalysisError as e:
@@ -114,7 +116,9 @@ def run_check(pid: str, tier: str, repo: str, rules: Callable[[Ctx], None], expl
         seen.add(kk)
         (known_hits if kk in known_keys else violations).append(o)
 
-    if status != "analysis-error" and violations:
+    # a violating construct that a rule has already established stays a violation when a later rule loses its anchor (the error is
+    # printed as well); without one, a lost anchor is an analysis error - never a pass
+    if violations:
         status = "violation"
 
     if status == "held" and tier == "thorough" and selftest is not None and ctx is not None:
@@ -139,6 +143,8 @@ def run_check(pid: str, tier: str, repo: str, rules: Callable[[Ctx], None], expl
         print(f"FAIL {o.rule} [{o.key}] {o.loc}: {o.msg}")
     if status == "analysis-error":
         print(f"ANALYSIS-ERROR property={pid}: {err}")
+    elif err:
+        print(f"note: part of the analysis could not be carried out on this tree ({err.splitlines()[0][:300]}); the violations above were established before that")
 
     samples = []
     for o in violations[:10] + known_hits[:5]:
